@@ -142,7 +142,19 @@ claim("C12", "model_checking", "Pairing.tla: TLC checks err = none <=> WellNeste
       "TLA+ spec Pairing.tla model-checked with TLC; spec->impl replay of every unbalanced file (bwexec all, CLI sample)",
       "DESIGN.md §6 C12")
 
-for pid in ["C04", "C10", "C15", "C16", "C17"]:
+claim("C10", "model_checking", "TLC enumerates every comment layout x content line of the offending key x key column x key "
+      "length of Ranges.tla and checks the range arithmetic of the validators against the true position (the first coding "
+      "deviated exactly when the comment continues after the tag's line or the key sits on the comment's last line -- "
+      "repaired in /repo); every case is rendered for sort / unique (regex key in the middle of a line, ASCII and "
+      "multi-byte text before it) / pattern violations and for line-count / Lua / AI / affects violations (range = start "
+      "tag) with by-construction byte positions. For this pure function TLC contributes exhaustive generation and a "
+      "derived oracle, not interleavings.",
+      "Trusted: the layout renderer (asserted against the spec's layout numbers: tag line, continuation lines, comment "
+      "end column; key position cross-checked between spec and concretiser).",
+      "TLA+ spec Ranges.tla model-checked with TLC; spec->impl replay of every layout with constructed ground truth",
+      "DESIGN.md §6 C10")
+
+for pid in ["C04", "C15", "C16", "C17"]:
     NA[pid] = "check not built yet in this round (planned, see DESIGN.md §6); not a limit of the technique"
 
 
